@@ -24,6 +24,16 @@ dz_dy = ((data[y + 1, x - 1] + 2 * data[y + 1, x] + data[y + 1, x + 1]) - (data[
 '''
 
 
+def _interpret_kernel(prog, kern):
+    """the stencil kernel interpreted, jitted phases of its own module that allocate and hand back arrays executed in place (a
+    kernel split into `gradients -> directions` reads like the unsplit one)"""
+    def phase(g):
+        return g.jit is not None and prog.same_unit(kern.module, g.module) and \
+            any(isinstance(n, ast.Call) and isinstance(n.func, ast.Attribute) and n.func.attr in (
+                'zeros', 'ones', 'full', 'empty', 'zeros_like', 'ones_like', 'full_like', 'empty_like') for n in g.own_nodes())
+    return interpret(prog, kern, inline_all=phase)
+
+
 def numpy_kernel(prog, public, want_jit=True):
     """the function on the numpy path that contains the per-cell loops (first jitted cpu function reached)"""
     paths = [p for p in backend_paths(prog, public) if p.backend == 'numpy']
@@ -251,7 +261,7 @@ def check_slope(prog, rep):
     path, f0, kern = numpy_kernel(prog, pub)
     if kern is None:
         raise AnalysisIncomplete('slope: no jitted kernel on numpy path')
-    k = interpret(prog, kern)
+    k = _interpret_kernel(prog, kern)
     yv, xv, data, stores = stencil_facts(rep, 'C08', pub, kern, k, 'slope')
     entry = 'slope[numpy]'
     cs = [p for p in kern.params if p != data]
@@ -363,7 +373,7 @@ def check_aspect(prog, rep):
     path, f0, kern = numpy_kernel(prog, pub)
     if kern is None:
         raise AnalysisIncomplete('aspect: no jitted kernel on numpy path')
-    k = interpret(prog, kern)
+    k = _interpret_kernel(prog, kern)
     yv, xv, data, stores = stencil_facts(rep, 'C08', pub, kern, k, 'aspect')
     entry = 'aspect[numpy]'
     sp = Spec(prog, spec_env(data, yv, xv))
@@ -425,7 +435,7 @@ def check_curvature(prog, rep):
     path, f0, kern = numpy_kernel(prog, pub)
     if kern is None:
         raise AnalysisIncomplete('curvature: no jitted kernel on numpy path')
-    k = interpret(prog, kern)
+    k = _interpret_kernel(prog, kern)
     yv, xv, data, stores = stencil_facts(rep, 'C08', pub, kern, k, 'curvature')
     entry = 'curvature[numpy]'
     sp = Spec(prog, spec_env(data, yv, xv, kern.params))
@@ -828,7 +838,7 @@ def check(prog, rep):
     ka = check_aspect(prog, rep)
     kc = check_curvature(prog, rep)
     for pubname, kern in (('slope', ks), ('aspect', ka), ('curvature', kc)):
-        k = interpret(prog, kern)
+        k = _interpret_kernel(prog, kern)
         data = None
         for lp in k.loops:
             for a in walk_atoms(lp.hi) if lp.hi is not None else ():
